@@ -16,6 +16,9 @@ double sqrt(double x)
 {
     double r = nondet_double();
     __CPROVER_assume(x >= 0 ? (r >= 0 && (x == 0) == (r == 0) && (x - x == 0) == (r - r == 0)) : ISNAN(r));
+#ifdef SQRT_TIGHT /* bounded companion units only: additionally r^2 within 2^-40 of x, so that counterexamples replay with the real sqrt */
+    __CPROVER_assume(!(x >= 0 && x - x == 0) || (r * r >= x * (1 - 0x1p-40) && r * r <= x * (1 + 0x1p-40)));
+#endif
     return r;
 }
 #endif
@@ -58,12 +61,8 @@ void h_trap_gen_degenerate(void)
 /* ---- [P] stored boundary data, clamping, the four-way plan shape; all arguments of magnitude <= 2^200.
         The case split is the library's own: peak velocity squared vc2 against vm^2, v0^2, v1^2 (recomputed here
         with the documented formula; the comparison with the code's value is by congruence) ---- */
-void h_trap_gen(void)
+static void check_trap_gen(a_trajtrap c, a_real vm, a_real ac, a_real de, a_real p0, a_real p1, a_real v0, a_real v1)
 {
-    TRAP_ARGS
-    a_trajtrap c;
-    TRAP_PRIOR(c)
-    ASSUME(INR(vm) && INR(ac) && INR(de) && INR(p0) && INR(p1) && INR(v0) && INR(v1) && ac != de);
     a_real const m = spec_abs(vm);
     a_real const v0c = spec_sat(v0, -m, +m), v1c = spec_sat(v1, -m, +m);
     a_real const p = p1 - p0;
@@ -119,6 +118,30 @@ void h_trap_gen(void)
         ASSERT(EQ(c.ta, c.td) && EQ(c.pd, c.pa), "trap gen: triangular plan: no cruise (ta == td, pd == pa)");
         ASSERT(EQ(r, c.t) && c.ac == ac && c.de == de, "trap gen: the returned duration is the stored one; the accelerations are stored");
     }
+}
+void h_trap_gen(void)
+{
+    TRAP_ARGS
+    a_trajtrap c;
+    TRAP_PRIOR(c)
+    ASSUME(INR(vm) && INR(ac) && INR(de) && INR(p0) && INR(p1) && INR(v0) && INR(v1) && ac != de);
+    check_trap_gen(c, vm, ac, de, p0, p1, v0, v1);
+    VERIF_CANARY();
+}
+/* ---- [B small integer requests] the same clauses on a domain the back end can enumerate: on a changed library the
+        unbounded unit above needs a counter-model of nonlinear float constraints, which cvc5 does not find within minutes;
+        here a violated clause is reported with a concrete request in seconds ---- */
+#ifndef DS
+#define DS 2
+#endif
+#define SMALLI(name) ND(int, i_##name, int); ASSUME(-(DS) <= i_##name && i_##name <= (DS)); a_real const name = i_##name
+void h_trap_gen_small(void)
+{
+    SMALLI(vm); SMALLI(ac); SMALLI(de); SMALLI(p0); SMALLI(p1); SMALLI(v0); SMALLI(v1);
+    a_trajtrap c;
+    c.t = c.p0 = c.p1 = c.v0 = c.v1 = c.vc = c.ta = c.td = c.pa = c.pd = c.ac = c.de = 0;
+    ASSUME(ac != de);
+    check_trap_gen(c, vm, ac, de, p0, p1, v0, v1);
     VERIF_CANARY();
 }
 
@@ -194,32 +217,65 @@ void h_trap_eval(void)
     (c).p0 = o_p0; (c).p1 = o_p1; (c).v0 = o_v0; (c).v1 = o_v1; (c).vm = o_vm; (c).jm = o_jm;           \
     (c).am = o_am; (c).dm = o_dm;
 
+/* ---- [P] lemma: a clamped value is inside the limit ---- */
+void h_lemma_sat(void)
+{
+    ND(a_real, x, double); ND(a_real, vm, double);
+    ASSUME(!ISNAN(vm));
+    a_real const m = spec_abs(vm), y = spec_sat(x, -m, +m);
+    ASSERT(-m <= y && y <= m, "lemma: a value clamped to [-|vm|, |vm|] is inside the velocity limit (NaN is clamped to -|vm|)");
+    VERIF_CANARY();
+}
+
 /* ---- generator: stored boundary data, clamping, limits made positive, duration bookkeeping; in a no-cruise plan with
         both an acceleration and a deceleration phase the constant-acceleration segments have non-negative duration.
         The bisection loop is closed by a loop contract (props/C14.py): every clause below holds on every exit of
         every iteration. ---- */
-void h_bell_gen(void)
+static void check_bell_gen(int full, a_trajbell c, a_real jm, a_real am, a_real vm, a_real p0, a_real p1, a_real v0, a_real v1)
 {
-    ND(a_real, jm, double); ND(a_real, am, double); ND(a_real, vm, double); ND(a_real, p0, double);
-    ND(a_real, p1, double); ND(a_real, v0, double); ND(a_real, v1, double);
-    a_trajbell c;
-    BELL_PRIOR(c)
-    ASSUME(INR(jm) && INR(am) && INR(vm) && INR(p0) && INR(p1) && INR(v0) && INR(v1));
     a_real const m = spec_abs(vm);
     a_real const v0c = spec_sat(v0, -m, +m), v1c = spec_sat(v1, -m, +m);
     a_real r = a_trajbell_gen(&c, jm, am, vm, p0, p1, v0, v1);
     ASSERT(c.p0 == p0 && c.p1 == p1, "bell gen: the boundary positions are stored");
     ASSERT(c.v0 == v0c && c.v1 == v1c, "bell gen: the boundary velocities are stored clamped to [-|vm|, |vm|]");
-    ASSERT(-m <= c.v0 && c.v0 <= m && -m <= c.v1 && c.v1 <= m, "bell gen: the stored boundary velocities are inside the velocity limit");
+    /* hence inside the velocity limit: h_lemma_sat (the direct obligation -m <= c.v0 <= m takes cvc5 between 160 s and > 300 s here) */
     ASSERT(c.jm == spec_abs(jm), "bell gen: the stored jerk limit is the magnitude of the requested one");
     ASSERT(EQ(r, c.t), "bell gen: the returned duration is the stored one (0 for a refused request)");
-    if (r != 0) { ASSERT(EQ(c.t, c.ta + c.tv + c.td), "bell gen: the phase durations add up to the total (t == ta + tv + td)"); }
+    if (full && r != 0) { ASSERT(EQ(c.t, c.ta + c.tv + c.td), "bell gen: the phase durations add up to the total (t == ta + tv + td)"); } /* equality of two adders: cvc5 only */
     if (r != 0) { ASSERT(c.tv >= 0 || ISNAN(c.tv), "bell gen: the cruise phase has non-negative duration"); }
     if (r > 0 && c.tv == 0 && c.ta > 0 && c.td > 0)
     {
         ASSERT(c.ta >= 2 * c.taj, "bell gen: no-cruise plan with both phases: the constant-acceleration segment has non-negative duration (ta >= 2 taj)");
         ASSERT(c.td >= 2 * c.tdj, "bell gen: no-cruise plan with both phases: the constant-deceleration segment has non-negative duration (td >= 2 tdj)");
     }
+}
+void h_bell_gen(void)
+{
+#ifdef BELL_REACH /* vacuity guard of h_bell_gen, decided on one admissible request (the test suite's): the preconditions below are
+                     satisfiable and the generator returns; finding a model of the unrestricted harness takes the back end ~5 min */
+    a_real const jm = 3, am = 2, vm = 3, p0 = 0, p1 = 10, v0 = 0, v1 = 0;
+#else
+    ND(a_real, jm, double); ND(a_real, am, double); ND(a_real, vm, double); ND(a_real, p0, double);
+    ND(a_real, p1, double); ND(a_real, v0, double); ND(a_real, v1, double);
+#endif
+    a_trajbell c;
+    BELL_PRIOR(c)
+    ASSUME(INR(jm) && INR(am) && INR(vm) && INR(p0) && INR(p1) && INR(v0) && INR(v1));
+    check_bell_gen(1, c, jm, am, vm, p0, p1, v0, v1);
+#ifndef BELL_NOCANARY /* the unrestricted unit leaves reachability to the unit compiled with BELL_REACH (same harness) */
+    VERIF_CANARY();
+#endif
+}
+/* ---- [B small integer requests, bisection unwound BU iterations] the same clauses on a domain where a violated clause is
+        reported with a concrete request quickly (see h_trap_gen_small); paths needing more iterations are cut ---- */
+void h_bell_gen_small(void)
+{
+    SMALLI(jm); SMALLI(am); SMALLI(vm); SMALLI(p0); SMALLI(p1); SMALLI(v0); SMALLI(v1);
+    ASSUME(jm >= 1 && am >= 1 && vm >= 1 && -1 <= p0 && p0 <= 1 && -2 <= p1 && p1 <= 2 && -1 <= v0 && v0 <= 1 && -1 <= v1 && v1 <= 1); /* limits 1..DS */
+    a_trajbell c;
+    c.t = c.tv = c.ta = c.td = c.taj = c.tdj = c.p0 = c.p1 = c.v0 = c.v1 = c.vm = c.jm = c.am = c.dm = 0;
+    ASSUME(jm != 0 && am != 0 && vm != 0);
+    check_bell_gen(0, c, jm, am, vm, p0, p1, v0, v1);
     VERIF_CANARY();
 }
 
@@ -287,14 +343,21 @@ void h_bell_jerk(void)
     VERIF_CANARY();
 }
 
+#ifndef SEG
+#define SEG 1
+#endif
 /* inside the motion: the four evaluators select the same segment for the same time; direction mirroring is applied by all */
 void h_bell_eval(void)
 {
     BELL_CTX
     ASSUME(0 < x && x < b7);
+    /* one unit per segment (-DSEG=k): with the segment as a top-level hypothesis each obligation takes seconds instead of minutes */
+    ASSUME((SEG == 1 && x < b1) || (SEG == 2 && b1 <= x && x < b2) || (SEG == 3 && b2 <= x && x < b3) || (SEG == 4 && b3 <= x && x < b4) ||
+           (SEG == 5 && b4 <= x && x < b5) || (SEG == 6 && b5 <= x && x < b6) || (SEG == 7 && b6 <= x));
     a_real const q0 = rev ? -c.p0 : c.p0, q1 = rev ? -c.p1 : c.p1, w0 = rev ? -c.v0 : c.v0, w1 = rev ? -c.v1 : c.v1; /* mirrored boundary data */
     a_real const pos = a_trajbell_pos(&c, x), vel = a_trajbell_vel(&c, x), acc = a_trajbell_acc(&c, x), jer = a_trajbell_jer(&c, x);
     /* the four evaluators select the same segment for the same time; direction mirroring is applied by all of them */
+#if SEG == 1
     if (0 < x && x < b1)
     {
         ASSERT(EQ(pos, MIR(q0 + w0 * x + c.jm * x * x * x / 6)), "bell: segment 1 (jerk +jm): position");
@@ -302,6 +365,8 @@ void h_bell_eval(void)
         ASSERT(EQ(acc, MIR(c.jm * x)), "bell: segment 1 (jerk +jm): acceleration jm x");
         ASSERT(EQ(jer, MIR(c.jm)), "bell: segment 1: jerk +jm (mirrored for reverse travel)");
     }
+#endif
+#if SEG == 2
     if (b1 <= x && x < b2)
     {
         ASSERT(EQ(pos, MIR(q0 + w0 * x + c.am * (3 * x * x - 3 * x * c.taj + c.taj * c.taj) / 6)), "bell: segment 2 (constant acceleration): position");
@@ -309,6 +374,8 @@ void h_bell_eval(void)
         ASSERT(EQ(acc, MIR(c.am)), "bell: segment 2: acceleration am");
         ASSERT(jer == 0, "bell: segment 2: jerk 0");
     }
+#endif
+#if SEG == 3
     if (b2 <= x && x < b3)
     {
         a_real const y = c.ta - x;
@@ -317,12 +384,16 @@ void h_bell_eval(void)
         ASSERT(EQ(acc, MIR(c.jm * (c.ta - x))), "bell: segment 3 (jerk -jm): acceleration jm (ta - x)");
         ASSERT(EQ(jer, MIR(-c.jm)), "bell: segment 3: jerk -jm (mirrored for reverse travel)");
     }
+#endif
+#if SEG == 4
     if (b3 <= x && x < b4)
     {
         ASSERT(EQ(pos, MIR(q0 + A_REAL_C(0.5) * (c.vm + w0) * c.ta + c.vm * (x - c.ta))), "bell: segment 4 (cruise): position");
         ASSERT(EQ(vel, MIR(c.vm)), "bell: segment 4 (cruise): velocity vm");
         ASSERT(acc == 0 && jer == 0, "bell: segment 4 (cruise): acceleration and jerk 0");
     }
+#endif
+#if SEG == 5
     if (b4 <= x && x < b5)
     {
         a_real const y = x - (c.t - c.td);
@@ -331,6 +402,8 @@ void h_bell_eval(void)
         ASSERT(EQ(acc, MIR(-c.jm * (x - c.t + c.td))), "bell: segment 5 (jerk -jm): acceleration -jm (x - t + td)");
         ASSERT(EQ(jer, MIR(-c.jm)), "bell: segment 5: jerk -jm (mirrored for reverse travel)");
     }
+#endif
+#if SEG == 6
     if (b5 <= x && x < b6)
     {
         a_real const y = x - (c.t - c.td);
@@ -339,6 +412,8 @@ void h_bell_eval(void)
         ASSERT(EQ(acc, MIR(c.dm)), "bell: segment 6: acceleration dm");
         ASSERT(jer == 0, "bell: segment 6: jerk 0");
     }
+#endif
+#if SEG == 7
     if (b6 <= x && x < b7)
     {
         a_real const y = c.t - x;
@@ -347,5 +422,6 @@ void h_bell_eval(void)
         ASSERT(EQ(acc, MIR(-c.jm * (c.t - x))), "bell: segment 7 (jerk +jm): acceleration -jm (t - x)");
         ASSERT(EQ(jer, MIR(c.jm)), "bell: segment 7: jerk +jm (mirrored for reverse travel)");
     }
+#endif
     VERIF_CANARY();
 }
